@@ -31,6 +31,7 @@ public:
 	void *in;
 	void *out;
 	Blocks *blocks;
+@BLOCK_EXTRA@
 };
 
 class Variable
